@@ -11,6 +11,7 @@ import (
 	"os"
 	"sort"
 	"strings"
+	"sync"
 	"time"
 
 	"github.com/relab/hotstuff"
@@ -394,6 +395,93 @@ func c12(args []string) error {
 				return fmt.Errorf("unknown object kind %q", kind)
 			}
 			o.emit(line)
+		}
+		// messages from several peers are decoded at the same time (one handler goroutine per connection): every vote, certificate and
+		// timeout certificate comes out as it does when decoded alone
+		{
+			type item struct {
+				kind string
+				raw  []byte
+				dec  func([]byte) obj
+			}
+			var items []item
+			for _, id := range w.signers("all") {
+				sg, err := w.secs[id-1].Base.Sign(w.b1.ToBytes())
+				if err != nil {
+					return err
+				}
+				pc := hotstuff.NewPartialCert(sg, w.b1.Hash())
+				raw, _ := proto.Marshal(hotstuffpb.PartialCertToProto(pc))
+				items = append(items, item{"vote", raw, func(b []byte) obj {
+					m := &hotstuffpb.PartialCert{}
+					if proto.Unmarshal(b, m) != nil {
+						return obj{"undecodable": true}
+					}
+					p := hotstuffpb.PartialCertFromProto(m)
+					return obj{"tobytes": hx8(p.ToBytes()), "sig": sigP(p.Signature())}
+				}})
+				if len(items) >= 8 {
+					break
+				}
+			}
+			qc := hotstuff.NewQuorumCert(w.sigOver("quorum", func(int) []byte { return w.b1.ToBytes() }), w.b1.View(), w.b1.Hash())
+			rawQC, _ := proto.Marshal(hotstuffpb.QuorumCertToProto(qc))
+			items = append(items, item{"qc", rawQC, func(b []byte) obj {
+				m := &hotstuffpb.QuorumCert{}
+				if proto.Unmarshal(b, m) != nil {
+					return obj{"undecodable": true}
+				}
+				q := hotstuffpb.QuorumCertFromProto(m)
+				return obj{"tobytes": hx8(q.ToBytes()), "sig": sigP(q.Signature())}
+			}})
+			tc := hotstuff.NewTimeoutCert(w.sigOver("all", func(int) []byte { return hotstuff.View(5).ToBytes() }), 5)
+			rawTC, _ := proto.Marshal(hotstuffpb.TimeoutCertToProto(tc))
+			items = append(items, item{"tc", rawTC, func(b []byte) obj {
+				m := &hotstuffpb.TimeoutCert{}
+				if proto.Unmarshal(b, m) != nil {
+					return obj{"undecodable": true}
+				}
+				t := hotstuffpb.TimeoutCertFromProto(m)
+				return obj{"view": fmt.Sprint(uint64(t.View())), "sig": sigP(t.Signature())}
+			}})
+			alone := make([]obj, len(items))
+			for i, it := range items {
+				alone[i] = it.dec(it.raw)
+			}
+			const rounds = 40
+			together := make([][]obj, len(items))
+			var wg sync.WaitGroup
+			start := make(chan struct{})
+			for i, it := range items {
+				wg.Add(1)
+				go func(i int, it item) {
+					defer wg.Done()
+					<-start
+					for r := 0; r < rounds; r++ {
+						together[i] = append(together[i], func() (x obj) {
+							defer func() {
+								if r := recover(); r != nil { // (e.g. a decoded vote without signature)
+									x = obj{"panic": fmt.Sprint(r)}
+								}
+							}()
+							return it.dec(it.raw)
+						}())
+					}
+				}(i, it)
+			}
+			close(start)
+			wg.Wait()
+			for i, it := range items {
+				// (one line per item: the first concurrent result that differs from the result alone, if any)
+				after := alone[i]
+				for _, x := range together[i] {
+					if fmt.Sprint(x) != fmt.Sprint(alone[i]) {
+						after = x
+						break
+					}
+				}
+				o.emit(obj{"id": 0, "scheme": label, "kind": "concurrent", "of": it.kind, "before": alone[i], "after": after, "decodes": rounds})
+			}
 		}
 		// a block fetched by hash is the block that hash names: the real quorum function on honest and lying replies
 		blocks := []*hotstuff.Block{w.b1, hotstuff.GetGenesis(),
